@@ -1,4 +1,4 @@
-package chanrewrite
+package chanrewrite_test
 
 import (
 	"go/ast"
@@ -8,6 +8,7 @@ import (
 	"testing"
 	"time"
 
+	"verif/internal/chanrewrite"
 	"verif/internal/e2"
 	"verif/internal/gorun"
 )
@@ -29,7 +30,7 @@ func TestRewriteConcurrentSubject(t *testing.T) {
 		t.Fatalf("goderive: %s", r.Stderr)
 	}
 	for _, pkg := range []string{"p", "p2"} {
-		src, model, declined, err := ModelFor(mod, pkg)
+		src, model, declined, err := chanrewrite.ModelFor(mod, pkg)
 		if err != nil {
 			t.Fatalf("%s: %v", pkg, err)
 		}
